@@ -12,11 +12,11 @@ CHECKS = {
                 note="Trusts the harness generator/oracle and that hook H1 replaces only the TCP dial. Universality over payload x chunking x segmentation x read plan is sampled except in the enumerated sub-spaces."),
     "C02": dict(cat="fault_enumeration", design="DESIGN.md §3 C02",
                 technique="runtime monitoring with fault injection: every cut offset / I/O-error offset / framing-byte corruption through the scripted transport, strict RFC 9112 reference decoder as online prefix oracle after every read",
-                text="Enumerates every truncation offset, every offset replaced by an I/O error (sticky and one-shot, followed by 0..4 further reads) and every single-byte corruption of every chunk-framing byte for 30 fixed bases (all framings), plus random and >64 KiB-chunk bases; after every read the bytes handed out must be a prefix of what a strict reference decoder says was really sent, and a damaged frame must end with Err.",
+                text="Enumerates every truncation offset, every offset replaced by an I/O error (sticky and one-shot, followed by 0..4 further reads) and every single-byte corruption of every chunk-framing byte for 30 fixed bases (all framings), plus random and >64 KiB-chunk bases; after every read the bytes handed out must be a prefix of what a strict reference decoder says was really sent, and a damaged frame must end with Err. The streaming text reader and the JSON helpers are driven as body readers as well (complete JSON text inside an incomplete frame must fail).",
                 note="Trusts the reference decoder and its gray-zone classification (lenient-parser deviations are executed but not judged beyond the prefix rule). Complete for the fixed bases; sampled elsewhere."),
     "C03": dict(cat="exploration", design="DESIGN.md §3 C03",
                 technique="runtime monitoring over a bounded-exhaustive configuration matrix: scripted responses whose trailing bytes make each framing interpretation recognisable, reference decision list as oracle",
-                text="Enumerates method x status x Content-Length configuration x Transfer-Encoding configuration x extra bytes (20k heads, x3 segmentations in thorough) through the production pipeline; the body delivered must be the one of the framing the RFC 9112 §6.3 decision list selects, and invalid or disagreeing lengths must fail the exchange.",
+                text="Enumerates method x status x Content-Length configuration x Transfer-Encoding configuration x extra bytes (20k heads, x3 segmentations in thorough) through the production pipeline; the body delivered must be the one of the framing the RFC 9112 §6.3 decision list selects, and invalid or disagreeing lengths must fail the exchange. Followed redirects with an unusable Content-Length must fail before a second request.",
                 note="The decision list in the harness is written from the statement; combinations the statement does not fix are executed but not judged (listed in the evidence assumptions)."),
     "C04": dict(cat="exploration", design="DESIGN.md §3 C04",
                 technique="runtime monitoring: generator-built response heads through the scripted transport, generator-as-oracle comparison of status and per-name header sequences",
@@ -24,7 +24,7 @@ CHECKS = {
                 note="Only syntactically valid heads are judged. Header values are compared after the normalisation the statement prescribes (trim spaces, LF -> space)."),
     "C19": dict(cat="fault_enumeration", design="DESIGN.md §3 C19",
                 technique="runtime monitoring with pause injection: the scripted peer stops at every wire offset; blocked transport reads are compared with the payload available at that point (reference decoder), no clock involved",
-                text="For every pause offset of 18 fixed responses (and sampled offsets of random / > 64 KiB bodies) x segmentation x read size, send() must return once the blank line arrived and every byte the statement calls available must be readable before any transport read reaches the pause; end-of-body must be reported without blocking once the frame is complete, and bodiless responses must read as empty without blocking.",
+                text="For every pause offset of 18 fixed responses (and sampled offsets of random / > 64 KiB bodies) x segmentation x read size, send() must return once the blank line arrived and every byte the statement calls available must be readable before any transport read reaches the pause; end-of-body must be reported without blocking once the frame is complete, and bodiless responses must read as empty without blocking. write_to() is judged at every pause offset as well (available bytes reach the writer before the transport is asked for more).",
                 note="Logical oracle on the hooked transport: a read at a Pause step is what would block on a real socket. Uncompressed bodies only."),
     "C05": dict(cat="exploration", design="DESIGN.md §3 C05",
                 technique="runtime monitoring under hostile workloads: panic capture, counting-allocator heap bound, read/endless-stream fuel and wall watchdog as always-on monitors over exhaustive small-alphabet strings, mutations and endless streams; crashes attributed per shard process",
@@ -32,7 +32,7 @@ CHECKS = {
                 note="Bounds are engineering bounds (2x the documented limit + one buffer); the wall watchdog is inconclusive unless reproduced alone. Memory safety of dependencies is addressed only as far as Miri/valgrind passes reach (see DESIGN.md)."),
     "C06": dict(cat="fault_enumeration", design="DESIGN.md §3 C06",
                 technique="runtime monitoring with fault injection: reference encoders (flate2 levels 0-9, hand-written stored/fixed-Huffman encoder, gzip header options) produce the streams; every truncation offset and every trailer bit flip is served; payload is the prefix oracle after every read",
-                text="Compressed responses over all block types, levels, gzip header options, coding declarations (letter case, lists, Content-/Transfer-Encoding), framings, segmentations and read plans must decode to exactly the payload; unknown codings must pass through unchanged; every truncation offset of 10 fixed streams (framing adjusted or left short) and every bit flip of the gzip trailer must end with Err with only a payload prefix delivered; corrupted gzip bodies must not decode cleanly to different bytes; Accept-Encoding is observed on the wire.",
+                text="Compressed responses over all block types, levels, gzip header options, coding declarations (letter case, lists, Content-/Transfer-Encoding), framings, segmentations and read plans must decode to exactly the payload; unknown codings must pass through unchanged; every truncation offset of 10 fixed streams (framing adjusted or left short) and every bit flip of the gzip trailer must end with Err with only a payload prefix delivered; corrupted gzip bodies must not decode cleanly to different bytes; Accept-Encoding is observed on the wire. With Content-Length framing, bytes that follow the frame on the connection must not reach the decoder.",
                 note="Trusts the reference encoders (cross-checked against flate2's decoder in the harness unit test). zlib-wrapped deflate, multi-member gzip and flips in raw-deflate bodies are outside the judged zone."),
     "C18": dict(cat="exploration", design="DESIGN.md §3 C18",
                 technique="runtime monitoring over a bounded-exhaustive configuration matrix plus every-cut segmentation: scripted responses, one-shot encoding_rs decode as oracle for the charset the statement selects",
@@ -40,7 +40,7 @@ CHECKS = {
                 note="encoding_rs (the library the crate itself uses) is the decoding oracle: what is checked is the choice of charset, totality and chunking independence, not encoding_rs's tables."),
     "C07": dict(cat="exploration", design="DESIGN.md §3 C07",
                 technique="runtime monitoring of the bytes received by the scripted peer: independent strict request parser (cross-checked with httparse), de-chunking reference decoder and a value model of the builder calls as oracle, over generated builder programs and custom Body programs with write faults",
-                text="Generated programs of builder calls and user-defined streaming bodies (arbitrary sequences of write/write_all/flush/empty write/write_vectored, BufWriter-wrapped or not) are sent; the bytes on the connection must decode as exactly one request whose method, percent-decoded path, query pairs, per-name header lists, credentials and de-framed body equal the inputs, with consistent framing and exactly one Connection: close, under short-write and Interrupted schedules.",
+                text="Generated programs of builder calls and user-defined streaming bodies (arbitrary sequences of write/write_all/flush/empty write/write_vectored, BufWriter-wrapped or not) are sent; the bytes on the connection must decode as exactly one request whose method, percent-decoded path, query pairs, per-name header lists, credentials and de-framed body equal the inputs, with consistent framing and exactly one Connection: close, under short-write and Interrupted schedules. A request written after a send that failed mid-write on the same thread is judged the same way.",
                 note="Trusts the harness's request parser / value model (written from the documentation of the builder methods). Host is judged by C08; multipart part decoding by C15."),
     "C08": dict(cat="exploration", design="DESIGN.md §3 C08",
                 technique="runtime monitoring over a bounded-exhaustive configuration matrix: dial log of hook H1 plus the request bytes received by the peer (decrypted by a live TLS server behind the scripted CONNECT reply for tunnelled rows), reference decision function as oracle",
@@ -48,7 +48,7 @@ CHECKS = {
                 note="The quick tier runs a stride of the tunnelled rows (each needs a TLS handshake), the thorough tier all of them. The Host field of proxied plain-http requests is recorded, not judged."),
     "C09": dict(cat="exploration", design="DESIGN.md §3 C09",
                 technique="runtime monitoring of request histories: the harness plays the whole web through reactive scripted transports; the walk observed (address dialled + request target per hop) is compared with a simulation of the same table using the harness's own RFC 3986 resolver",
-                text="Generated redirect webs (chains, trees, cycles; all 3xx codes; every Location form incl. missing, unusable and non-http) are walked by send() under max_redirections {0,1,2,5,7} and follow on/off; the observed request sequence, the error raised at the bound, the set of followed statuses and Response::url/status must equal the reference walk, including the exhaustive chain-length x max boundary table.",
+                text="Generated redirect webs (chains, trees, cycles; all 3xx codes; every Location form incl. missing, unusable and non-http) are walked by send() under max_redirections {0,1,2,5,7} and follow on/off; the observed request sequence, the error raised at the bound, the set of followed statuses and Response::url/status must equal the reference walk, including the exhaustive chain-length x max boundary table. Every walk is repeated on the same PreparedRequest and must not depend on the first.",
                 note="Judged on the subset of reference syntax where RFC 3986 and the WHATWG URL standard agree; the rest is executed and only its prefix judged."),
     "C11": dict(cat="exploration", design="DESIGN.md §3 C11",
                 technique="runtime monitoring of the public decision function and of the dial: exhaustive small-scope host x no-proxy-list space and the 8-variable environment space (each shard process owns its environment), reference decision returning sets of acceptable outcomes",
@@ -64,19 +64,19 @@ CHECKS = {
                 note="Part order is not judged. The decoder is the harness's own (unit-tested); content types are compared as parsed Mime values."),
     "C16": dict(cat="exploration", design="DESIGN.md §3 C16",
                 technique="runtime monitoring of operation histories: real objects and a value model executed in lock-step; settings-snapshot hook checked on every live object after every operation, wire probes (headers, redirect bound, header limit, proxy dialled, connector arguments) on every send; objects then spread over concurrently operating threads",
-                text="Random sequences of session/builder operations with colliding values are run against a by-value model; after each operation every live object's snapshot must equal its model, and each send is observed through one wire probe; a second generator hands clones of all sessions to 2..8 barrier-started threads that keep mutating and sending while the parent verifies that the originals never change.",
+                text="Random sequences of session/builder operations with colliding values are run against a by-value model; after each operation every live object's snapshot must equal its model, and each send is observed through one wire probe; a second generator hands clones of all sessions to 2..8 barrier-started threads that keep mutating and sending while the parent verifies that the originals never change. A failed send of an unrelated session on the same thread must leave the probed request's bytes untouched.",
                 note="Root certificates are only counted. Thread interleavings are those the OS produces; no data race is possible in safe Rust here, the concurrency part checks logical isolation of Arc copy-on-write."),
     "C12": dict(cat="fault_enumeration", design="DESIGN.md §3 C12",
                 technique="runtime monitoring with fault injection on the proxy connection: scripted CONNECT replies (every status, every cut offset, garbage, huge/endless bodies) and a live TLS server spliced in behind 2xx replies; event-order oracle over the transport trace (each write tagged with the reply bytes consumed), marker search in the raw proxy-side bytes, decode of the tunnelled request",
-                text="Every reply status 100..599, every truncation offset of three reply heads, refusal bodies around the 10 KiB cap and endless, garbage replies, and a configuration matrix of origin/proxy URL shapes are run; the CONNECT line, Proxy-Authorization, the absence of any write before a complete 2xx head or after a refusal, the ConnectError contents, the absence of caller data in clear on the proxy side, the absence of proxy credentials inside the tunnel and the verification of the tunnelled TLS session against the origin's name (certificate valid only for the proxy's name must be rejected) are checked.",
+                text="Every reply status 100..599, every truncation offset of three reply heads, refusal bodies around the 10 KiB cap and endless, garbage replies, and a configuration matrix of origin/proxy URL shapes are run; the CONNECT line, Proxy-Authorization, the absence of any write before a complete 2xx head or after a refusal, the ConnectError contents, the absence of caller data in clear on the proxy side, the absence of proxy credentials inside the tunnel and the verification of the tunnelled TLS session against the origin's name (certificate valid only for the proxy's name must be rejected) are checked. Session default headers carry markers too; a refusal followed by an I/O error instead of a close stays a refusal.",
                 note="Quick runs the native-tls flavour, thorough both TLS flavours. IPv6 origins run with certificate checks waived (see DESIGN.md §8)."),
     "C14": dict(cat="exploration", design="DESIGN.md §3 C14",
                 technique="runtime monitoring of real TLS handshakes over loopback against fixture certificates (resolver hook H2 maps the names), exhaustive flag/certificate/path/placement matrix decided by a truth table, under both TLS backends (two harness flavours)",
-                text="Every cell of {CA-anchored, self-signed, unknown issuer, expired} x {name matches, differs} x accept_invalid_certs x accept_invalid_hostnames x root added x {direct, CONNECT through a real loopback proxy, https proxy with nested TLS} x {flags set on session, request, clone} is executed together with a sibling / original request that must stay unaffected; success is allowed only where the truth table allows it (safety), and required for the CA->leaf topology on DNS names or when certificate checks are waived (liveness); a rejected peer must never have received the request. Both native-tls and rustls flavours run in quick and thorough.",
+                text="Every cell of {CA-anchored, self-signed, unknown issuer, expired} x {name matches, differs} x accept_invalid_certs x accept_invalid_hostnames x root added x {direct, CONNECT through a real loopback proxy, https proxy with nested TLS} x {flags set on session, request, clone} is executed together with a sibling / original request that must stay unaffected; success is allowed only where the truth table allows it (safety), and required for the CA->leaf topology on DNS names or when certificate checks are waived (liveness); a rejected peer must never have received the request. Both native-tls and rustls flavours run in quick and thorough. Also: settings shared with live requests when unrelated setters run, and a self-signed (valid / expired) server certificate added as its own root.",
                 note="Trusts OpenSSL/rustls to perform the checks they are asked to perform and the fixtures (verified with openssl verify at generation). tls-rustls-native-roots and Windows paths are not run."),
     "C13": dict(cat="fault_enumeration", design="DESIGN.md §3 C13",
                 technique="runtime monitoring with fault injection on real loopback sockets: peers stall or drip at every protocol phase; elapsed-time classes, end-of-body signals and /proc thread/fd counts are the observations; hook H3 forces reader/watchdog interleavings; load probe + retry keep wall-clock verdicts honest",
-                text="Every stall phase (upload, status line, headers, blank line, length/close/chunked body positions, TLS handshake, CONNECT reply, inside the tunnel) x {silent, drip} x four timeout configurations, redirect chains exceeding T in total, converse histories (complete responses with up to five reads after end-of-body) and 24 forced reader/watchdog schedules are executed; the call must end with Err within T (or R) + 1.5 s, never report a cut body as complete, never report a completed response as timed out before the deadline, and leave no thread or descriptor behind.",
+                text="Every stall phase (upload, status line, headers, blank line, length/close/chunked body positions, TLS handshake, CONNECT reply, inside the tunnel) x {silent, drip} x four timeout configurations, redirect chains exceeding T in total, converse histories (complete responses with up to five reads after end-of-body) and 24 forced reader/watchdog schedules are executed; the call must end with Err within T (or R) + 1.5 s, never report a cut body as complete, never report a completed response as timed out before the deadline, and leave no thread or descriptor behind. A descriptor-exhaustion fault (0..3 free slots at connect time) must not disable the deadline.",
                 note="Timing classes are separated by more than an order of magnitude (bound T+1.5 s vs a 20 s hold); a suspect timing on a loaded machine is retried and then reported inconclusive. Connect phase, Windows branches not covered."),
     "C17": dict(cat="exploration", design="DESIGN.md §3 C17",
                 technique="runtime monitoring on real loopback sockets: accept / refuse / black-hole listeners behind a name mapped by resolver hook H2, exhaustive behaviour assignments; listener logs, result and coarse elapsed-time classes compared with a reference racing order",
